@@ -250,9 +250,10 @@ fn run_bin<const B: usize, const L: usize>(p: &[&str]) -> String {
         ($op:tt, $opa:tt, $inh:expr) => {
             match shape {
                 "vv" => fi!(h(&(a $op c)), h(&$inh)),
-                "vr" => fi!(h(&(a $op &c)), h(&$inh)),
+                "vr" => fi!({ if a == c { let r = &a; h(&(a $op r)) } else { h(&(a $op &c)) } }, h(&$inh)),
                 "rv" => fi!(h(&(&a $op c)), h(&$inh)),
-                "rr" => fi!(h(&(&a $op &c)), h(&$inh)),
+                // equal operands: both references point at the SAME object (aliasing)
+                "rr" => fi!({ if a == c { let r = &a; h(&(r $op r)) } else { h(&(&a $op &c)) } }, h(&$inh)),
                 "av" => fi!({ let mut x = a; x $opa c; h(&x) }, h(&$inh)),
                 "ar" => fi!({ let mut x = a; x $opa &c; h(&x) }, h(&$inh)),
                 _ => bad(),
